@@ -65,6 +65,26 @@ let c18_rw args impl =
     if List.mem impl cands then "OK" else "model admits: " ^ String.concat " | " cands
   | _ -> failwith "rw: bad args"
 
+(* sigadd: the services are shut down once each, in the reverse of the order in which they were
+   registered (whatever the Add calls and slices were); any failure gives the failure status *)
+let c18_sigadd args =
+  match args with
+  | [pat; bad] ->
+    (match String.split_on_char ':' pat with
+     | [_; parts] ->
+       let extra = ref 0 in
+       let order = List.concat_map (fun part ->
+           if part = "x" then (let k = !extra in incr extra; ["x" ^ string_of_int k])
+           else match String.split_on_char '-' part with
+             | [i; j] -> List.init (int_of_string j - int_of_string i) (fun d -> "a" ^ string_of_int (int_of_string i + d))
+             | _ -> failwith "sigadd: bad part") (String.split_on_char ',' parts) in
+       let failing = if bad = "" then None else if bad = "ex" then Some "x0" else Some ("a" ^ String.sub bad 1 (String.length bad - 1)) in
+       let st = match failing with Some f when List.mem f order -> 1 | _ -> 0 in
+       "calls=" ^ String.concat "," (List.rev order) ^ " status=" ^ string_of_int st
+     | _ -> failwith "sigadd: bad pattern")
+  | _ -> failwith "sigadd: bad args"
+
 let () =
+  Registry.register "sigadd" c18_sigadd;
   Registry.register "sig" c18_sig;
   Registry.register_judge "rw" c18_rw
